@@ -1598,6 +1598,7 @@ func (m *Matcher) checkCountLink(st state, wl, rl *Loop, wfr, rfr *frame) {
 			return
 		}
 	}
+	m.clampedCount(wfr, wl, rl, rfr)
 	wk := m.loopKeyW(wfr, wl)
 	var rkey interface{}
 	var prefer interface{}
@@ -2398,4 +2399,57 @@ func (m *Matcher) cmpKey(e *env, key string, op token.Token, c int64, alsoKey st
 		return t, nil
 	}
 	return triUnknown, &split{kind: "cmp", key: key, op: op, c: c}
+}
+
+// clampedCount: the writer's loop bound is a local that started as the size of a collection and is
+// overwritten with a constant on some path (if n > 127 { n = 127 }): writer and reader still agree
+// on the count, but the elements beyond it are never written — they are lost in transit.
+func (m *Matcher) clampedCount(wfr *frame, wl, rl *Loop, rfr *frame) {
+	if wl.Bound == nil || wfr.ctx.FI == nil || wfr.ctx.FI.Decl.Body == nil {
+		return
+	}
+	id, ok := ast.Unparen(stripConv(wfr.ctx, wl.Bound)).(*ast.Ident)
+	if !ok {
+		return
+	}
+	info := wfr.ctx.Info
+	obj := info.ObjectOf(id)
+	if obj == nil || !isLocalVar(obj) {
+		return
+	}
+	sized, clamp := false, ""
+	ast.Inspect(wfr.ctx.FI.Decl.Body, func(n ast.Node) bool {
+		as, ok := n.(*ast.AssignStmt)
+		if !ok || len(as.Lhs) != len(as.Rhs) {
+			return true
+		}
+		for i, l := range as.Lhs {
+			lid, ok := l.(*ast.Ident)
+			if !ok || info.ObjectOf(lid) != obj {
+				continue
+			}
+			if tv, ok := info.Types[as.Rhs[i]]; ok && tv.Value != nil {
+				if as.Tok == token.ASSIGN {
+					clamp = types.ExprString(as.Rhs[i])
+				}
+				continue
+			}
+			if call, ok := ast.Unparen(stripConv(wfr.ctx, as.Rhs[i])).(*ast.CallExpr); ok {
+				name := ""
+				switch f := call.Fun.(type) {
+				case *ast.Ident:
+					name = f.Name
+				case *ast.SelectorExpr:
+					name = f.Sel.Name
+				}
+				if name == "len" || name == "Size" || name == "Len" || name == "Count" {
+					sized = true
+				}
+			}
+		}
+		return true
+	})
+	if sized && clamp != "" {
+		m.fail("omission", wl, rl, wfr, rfr, "the writer's repetition count %s starts as the size of the collection and is overwritten with %s on some path: the elements beyond it are never written", id.Name, clamp)
+	}
 }
